@@ -81,6 +81,46 @@ def repository_level(rnd):
     return problems
 
 
+def multi_file_resync(rnd):
+    """repository level, SEVERAL files: an edit that changes the length of an earlier file (by a non-multiple of the alignment) must not
+    re-chunk the unchanged files that follow it in the stream (files are padded to the alignment inside the stream).  Sizes around
+    1 MiB / 2 MiB so that any bundling / buffering threshold of the stream is crossed by an unaligned file."""
+    import asyncio
+    from replicat.repository import Repository
+    from replicat.backends.local import Local
+    problems = []
+
+    async def go(root, middle_size):
+        r = Repository(Local(root / 'repo'), concurrent=2, quiet=True, cache_directory=None)
+        src = root / 'src'
+        src.mkdir()
+        (src / 'small').write_bytes(rnd.randbytes(1001))
+        (src / 'middle').write_bytes(rnd.randbytes(middle_size))
+        (src / 'zlarge').write_bytes(rnd.randbytes(3 * 2 ** 20 + 3))
+        with lib.quiet():
+            await r.init(settings={'encryption': None, 'chunking': {'min_length': 2048, 'max_length': 32768}})
+            await r.unlock()
+            s1 = await r.snapshot(paths=[src])
+            with open(src / 'middle', 'ab') as f:
+                f.write(b'!')
+            s2 = await r.snapshot(paths=[src])
+        await r.close()
+
+        def chunks_of(snap, name):
+            f = next(x for x in snap.data['files'] if x['path'].endswith(name))
+            return [snap.chunks[c['index']] for c in f['chunks']]
+        old, new = set(chunks_of(s1, 'zlarge')), chunks_of(s2, 'zlarge')
+        fresh = [c for c in new if c not in old]
+        if len(fresh) > 6:
+            problems.append({'problem': 'one byte appended to an earlier file re-chunked an unchanged later file', 'middle_size': middle_size,
+                             'new_chunks_of_the_unchanged_file': len(fresh), 'of': len(new)})
+
+    for middle in (300_001, 2 ** 20 - 1001 - 3 + 2, 2 ** 20 + 1, 2 ** 21 + 3):
+        with lib.scratch('vf_c11m_') as root:
+            asyncio.run(go(root, middle))
+    return problems
+
+
 def main():
     payload = lib.read_payload()
     tier, seed = payload.get('tier', 'quick'), int(payload.get('seed', 0))
@@ -148,6 +188,14 @@ def main():
     except Exception as e:
         import traceback
         failures.append({'id': 'repository_key', 'class': None, 'case': {'level': 'repository'},
+                         'detail': {'problem': 'exception', 'error': f'{type(e).__name__}: {e}'[:200], 'tb': traceback.format_exc()[-500:]}})
+    try:
+        for prob in multi_file_resync(rnd):
+            failures.append({'id': f'multi_file_{prob["middle_size"]}', 'class': None, 'case': {'level': 'repository, several files'}, 'detail': prob})
+        cases += 4
+    except Exception as e:
+        import traceback
+        failures.append({'id': 'multi_file', 'class': None, 'case': {'level': 'repository, several files'},
                          'detail': {'problem': 'exception', 'error': f'{type(e).__name__}: {e}'[:200], 'tb': traceback.format_exc()[-500:]}})
     lib.emit({'status': 'ok', 'cases': cases, 'distinct': cases, 'failures': failures[:10], 'samples': samples,
               'exhaustive': False, 'reproduced': bool(failures)})
